@@ -143,7 +143,14 @@ func clip(xs []string, n int) []string {
 }
 
 func (rn *runner) disagree(d disagreement) {
-	if len(rn.rep.Disagreements) < rn.maxDis {
+	// the cap is per kind: a flood of model disagreements must not crowd out the concrete (spec) ones
+	n := 0
+	for _, x := range rn.rep.Disagreements {
+		if x.Kind == d.Kind {
+			n++
+		}
+	}
+	if n < rn.maxDis {
 		rn.rep.Disagreements = append(rn.rep.Disagreements, d)
 	}
 }
